@@ -109,6 +109,15 @@ pub struct AggState {
     pub stale_left: u32,
     pub round_closed_left: u32,
     pub publish_fail_left: u32,
+    /// the chain moves to the next epoch right after the aggregator has answered the next request of this route
+    /// (0 epoch settings, 1 protocol configuration, 2 register signer, 3 register signatures), i.e. while the answer
+    /// is on its way to the signer
+    pub bump_after: Option<u8>,
+    /// (step, new epoch, route, sequence number of the last request received before) of the epoch changes that
+    /// happened that way
+    pub bumps: Vec<(u32, u64, u8, u64)>,
+    pub chain: Option<Arc<mithril_cardano_node_chain::test::double::FakeChainObserver>>,
+    pub stakes_fn: Option<fn(u8, u64) -> Vec<SignerWithStake>>,
     pub hits: FaultHits,
     // chain knowledge of the aggregator: stake distribution observed during each epoch
     pub stakes: BTreeMap<u64, BTreeMap<String, u64>>,
@@ -133,6 +142,10 @@ impl AggState {
             stale_left: 0,
             round_closed_left: 0,
             publish_fail_left: 0,
+            bump_after: None,
+            bumps: vec![],
+            chain: None,
+            stakes_fn: None,
             hits: FaultHits::default(),
             stakes: BTreeMap::new(),
             registrations: vec![],
@@ -143,11 +156,18 @@ impl AggState {
         }
     }
 
+    /// the request `seq` of cycle `step` was received after the chain had moved to `receipt_epoch` WITHIN that same
+    /// cycle of the signer (scripted epoch change in flight): what the signer sent was prepared in the epoch before
+    pub fn received_after_change_in_flight(&self, step: u32, seq: u64, receipt_epoch: u64) -> bool {
+        self.bumps.iter().any(|(s, e, _, q)| *s == step && *e == receipt_epoch && *q < seq)
+    }
+
     pub fn heal(&mut self) {
         self.down_left = 0;
         self.stale_left = 0;
         self.round_closed_left = 0;
         self.publish_fail_left = 0;
+        self.bump_after = None;
     }
 
     /// acknowledged registrations received while the chain was in `receipt_epoch` (last one per party wins,
@@ -232,10 +252,10 @@ impl FakeAggregator {
     pub fn spawn(state: AggState) -> anyhow::Result<FakeAggregator> {
         let state = Arc::new(Mutex::new(state));
         let router = Router::new()
-            .route("/epoch-settings", get(epoch_settings))
-            .route("/protocol-configuration/{epoch}", get(protocol_configuration))
-            .route("/register-signer", post(register_signer))
-            .route("/register-signatures", post(register_signatures))
+            .route("/epoch-settings", get(epoch_settings_then))
+            .route("/protocol-configuration/{epoch}", get(protocol_configuration_then))
+            .route("/register-signer", post(register_signer_then))
+            .route("/register-signatures", post(register_signatures_then))
             .with_state(state.clone());
         let std_listener = std::net::TcpListener::bind("127.0.0.1:0")?;
         std_listener.set_nonblocking(true)?;
@@ -246,6 +266,57 @@ impl FakeAggregator {
         });
         Ok(FakeAggregator { state, url: format!("http://{addr}/"), task })
     }
+}
+
+/// the scripted epoch change "while the answer is in flight" (see `AggState::bump_after`)
+async fn epoch_change_after(st: &Shared, route: u8) {
+    let job = {
+        let mut s = st.lock().unwrap();
+        if s.bump_after == Some(route) {
+            s.bump_after = None;
+            match (s.chain.clone(), s.stakes_fn) {
+                (Some(chain), Some(f)) => Some((chain, f, s.salt)),
+                _ => None,
+            }
+        } else {
+            None
+        }
+    };
+    if let Some((chain, stakes_fn, salt)) = job {
+        let e = chain.next_epoch().await.map(|e| e.0).unwrap_or(0);
+        let sws = stakes_fn(salt, e);
+        let map: BTreeMap<String, u64> = sws.iter().map(|s| (s.party_id.clone(), s.stake)).collect();
+        chain.set_signers(sws).await;
+        let mut s = st.lock().unwrap();
+        s.epoch = e;
+        s.stakes.insert(e, map);
+        let (step, seq) = (s.step, s.seq);
+        s.bumps.push((step, e, route, seq));
+    }
+}
+
+async fn epoch_settings_then(State(st): State<Shared>) -> Response {
+    let r = epoch_settings(State(st.clone())).await;
+    epoch_change_after(&st, 0).await;
+    r
+}
+
+async fn protocol_configuration_then(key: Path<u64>, State(st): State<Shared>) -> Response {
+    let r = protocol_configuration(key, State(st.clone())).await;
+    epoch_change_after(&st, 1).await;
+    r
+}
+
+async fn register_signer_then(State(st): State<Shared>, body: Bytes) -> Response {
+    let r = register_signer(State(st.clone()), body).await;
+    epoch_change_after(&st, 2).await;
+    r
+}
+
+async fn register_signatures_then(State(st): State<Shared>, body: Bytes) -> Response {
+    let r = register_signatures(State(st.clone()), body).await;
+    epoch_change_after(&st, 3).await;
+    r
 }
 
 fn unavailable() -> Response {
